@@ -94,6 +94,19 @@ pub fn caught<R>(f: impl FnOnce() -> R) -> Result<R, String> {
     }
 }
 
+/// A panic that escaped a case.  Calls into flute are wrapped by the properties themselves, so what
+/// arrives here normally comes from harness code.  A panic raised at a harness source location
+/// (the harness crate is compiled with relative paths, "src/...") is a defect of the machinery:
+/// it ends the run with exit code 2 and is never reported as a violation of the property.
+fn uncaught(p: String) -> String {
+    let site = panic_site(&p);
+    if site.starts_with("src/") {
+        crate::out::line(&format!("HARNESS ERROR: {} (panic raised by harness code, not a verdict)", p));
+        std::process::exit(2);
+    }
+    format!("{} (uncaught in harness case runner)", p)
+}
+
 /// location part of a captured panic ("src/common/lct.rs:351") for known-finding signatures
 pub fn panic_site(msg: &str) -> String {
     // "panic at <file>:<line>: ..."
@@ -446,7 +459,7 @@ impl Engine {
                             let _g = crate::watchdog::publish(id, doc, cfg.limit, cfg.hang_is_violation);
                             let r = match caught(|| run(&v)) {
                                 Ok(r) => r,
-                                Err(p) => Err(format!("{} (uncaught in harness case runner)", p)),
+                                Err(p) => Err(uncaught(p)),
                             };
                             match r {
                                 Ok(info) => {
@@ -548,7 +561,7 @@ impl Engine {
                             let _g = crate::watchdog::publish(id, doc, cfg.limit, cfg.hang_is_violation);
                             let r = match caught(|| run(&v)) {
                                 Ok(r) => r,
-                                Err(p) => Err(format!("{} (uncaught in harness case runner)", p)),
+                                Err(p) => Err(uncaught(p)),
                             };
                             match r {
                                 Ok(info) => {
@@ -678,7 +691,7 @@ impl Engine {
             let _g = crate::watchdog::publish(self.id, doc, Duration::from_secs(120), true);
             let r = match caught(|| run(c)) {
                 Ok(r) => r,
-                Err(p) => Err(format!("{} (uncaught in harness case runner)", p)),
+                Err(p) => Err(uncaught(p)),
             };
             match r {
                 Ok(info) => stats.record(&info, fnv(jstr.as_bytes()), || js.clone()),
